@@ -13,7 +13,7 @@ ASSUMPTIONS = ["virtual time is positive; pacing intervals are > 0 (a zero inter
 
 
 def correspondence(ctx):
-    return corr21.run(ctx, 40 if ctx.quick else 1500, 200 if ctx.quick else 6000, 7)
+    return corr21.run(ctx, ctx.n(40, 1500), ctx.n(200, 6000), 7)
 
 
 def hostile_case(rng, dll='j1939-21'):
@@ -66,7 +66,7 @@ def hostile_case(rng, dll='j1939-21'):
 
 def oracle(ctx, full):
     rng = random.Random(ctx.seed * 7907 + 7)
-    n = 150 if (ctx.quick and not full) else 5000
+    n = ctx.n(150, 5000, full)
     findings, evals, distinct, samples = [], 0, set(), []
     for _ in range(n):
         sub = random.Random(rng.getrandbits(48))
